@@ -60,10 +60,59 @@ YAW_ONLY = [1, 2, 3, 4]
 VALIDATE_MESSAGES = ("does not fit in container", "is not visible from ego", "intersects")
 
 
+# boxes with the same dimensions as a non-convex catalogue shape: the alternatives of a random
+# `shape` whose width / length / height are fixed (C02 only; appended so that C04's ids do not move)
+for _name, _base, _scale in (("slab", "cube", (2, 2, 1)), ("bar3", "cube", (3, 1, 1))):
+    if _name not in G.CAT_INDEX:
+        G.CAT.append(G._entry(_name, _base, _scale, kind="box"))
+        G.CAT_INDEX[_name] = len(G.CAT)
+
+# random.gauss is scripted with these multiples of sigma (none, moderate both ways, large)
+GAUSS_Z = (0, 2, -2, 6)
+
+
+def gauss_values(mu, sigma):
+    return [(mu + sigma * z, Fraction(1, len(GAUSS_Z))) for z in GAUSS_Z]
+
+
 # ----------------------------------------------------------------------------- programs
-def _obj(shape, pos, rot=(1,), allow=(0,), occ=0, rv=0, vis=0, nvis=0, cont=0):
-    return {"shape": CI[shape], "pos": [list(p) for p in pos], "rot": list(rot), "allow": list(allow),
+def _obj(shape, pos, rot=(1,), allow=(0,), occ=0, rv=0, vis=0, nvis=0, cont=0, mut=None):
+    """shape: a catalogue name, or a tuple of names with equal dimensions (random `shape`).
+    mut: None or dict(style "stmt" | "by" | "with", scale k, psd (sx, sy, sz) in units, osd yaw sigma
+    in degrees): Gaussian mutation; sigma * scale * GAUSS_Z must stay on the lattice."""
+    names = (shape,) if isinstance(shape, str) else tuple(shape)
+    if len({tuple(G.CAT[CI[n] - 1]["dims"]) for n in names}) != 1:
+        raise MachineryError("alternatives of a random shape must have equal dimensions")
+    noise, ynoise = [[0, 0, 0]], [0]
+    if mut:
+        k = mut["scale"]
+        axes = []
+        for sd in mut["psd"]:
+            vals = []
+            for z in GAUSS_Z:
+                v = Fraction(sd) * k * z * G.S
+                if v.denominator != 1 or v.numerator % 2:
+                    raise MachineryError("mutation noise leaves the lattice")
+                if int(v) not in vals:
+                    vals.append(int(v))
+            axes.append(vals)
+        noise = [[x, y, z] for x in axes[0] for y in axes[1] for z in axes[2]]
+        for z in GAUSS_Z:
+            q = Fraction(mut["osd"]) * k * z / 90
+            if q.denominator != 1:
+                raise MachineryError("yaw noise leaves the quarter turns")
+            if int(q) % 4 not in ynoise:
+                ynoise.append(int(q) % 4)
+    return {"shapes": [CI[n] for n in names], "pos": [list(p) for p in pos], "rot": list(rot), "allow": list(allow),
+            "noise": noise, "ynoise": ynoise, "mut": mut,
             "occ": occ, "rv": rv, "vis": vis, "nvis": nvis, "cont": cont}
+
+
+def tla_prog(p):
+    """The JSON constant of a program (drops what only the Scenic printer needs)."""
+    q = {k: v for k, v in p.items() if k != "note"}
+    q["objs"] = [{k: v for k, v in o.items() if k != "mut"} for o in p["objs"]]
+    return q
 
 
 def _mesh_cont(shape, pos=(0, 0, 0), rot=1):
@@ -103,7 +152,7 @@ def gen_programs(rng, n):
 
     fam = 0
     while len(progs) < n:
-        f = fam % 8
+        f = fam % 11
         fam += 1
         if f == 0:  # two objects, collisions, box workspace
             a, b = rng.choice(small), rng.choice(small)
@@ -158,6 +207,49 @@ def gen_programs(rng, n):
             objs = [_obj("cube", near(rng, 2, 4)), _obj(rng.choice(("bar", "L")), near(rng, 3, 4), allow=(0, 1))]
             user = [_u(["lt", 1, 1, 2, 1], (1, 2)), _u(["not", ["ltc", 2, 2, 0]], (1, 1))]
             progs.append(_prog(objs, [], 0, user, "user requirements"))
+        elif f == 8:  # FIXED pose and size next to the workspace boundary / to each other, then mutated
+            sh = rng.choice(("cube", "bar", "L", "brick"))
+            ax = rng.choice((0, 1))
+            psd = [0, 0, 0]
+            style = rng.choice(("stmt", "by"))
+            scale = 1 if style == "stmt" else 2
+            psd[ax] = Fraction(1, 2) / scale if rng.random() < 0.7 else Fraction(1, 4) / scale
+            pos = [0, 0, 0]
+            pos[ax] = rng.choice((6, 8, -8))       # 1.5 / 2 units from the centre of the 6 x 6 room
+            pos[1 - ax] = _even(rng.randint(-4, 4))
+            wsn, conts = rng.choice((("room", None), ("roomL", None), (None, rng.randrange(1, len(G.POLYS) + 1))))
+            cont = [_mesh_cont(wsn)] if wsn else [_poly_cont(conts)]
+            objs = [_obj("cube", [[0, 0, 0]], allow=rng.choice(((0,), (1,)))),
+                    _obj(sh, [pos], rot=[rng.choice(YAW_ONLY)], allow=(0,),
+                         mut=dict(style=style, scale=scale, psd=psd, osd=rng.choice((0, 45))))]
+            progs.append(_prog(objs, cont, 1, [], f"fixed pose + mutate ({style})"))
+        elif f == 9:  # random SHAPE with fixed dimensions and a fixed (rotated) pose near the boundary
+            alts = rng.choice((("L", "slab"), ("twin", "bar3"), ("tripod", "cube2"), ("slab", "L")))
+            rot = rng.randrange(1, 25)
+            half = [d * G.S / 2 for d in G.CAT[CI[alts[0]] - 1]["dims"]]
+            m = G.ROTS[rot - 1][0]
+            span = [sum(abs(m[i][j]) * half[j] for j in range(3)) for i in range(3)]
+            wsn = rng.choice(("room", "roomL"))
+            # flush with a wall, one half unit inside, or one half unit through it
+            pos = [_even(12 - span[0] + rng.choice((-2, 0, 2))), _even(rng.choice((-6, 0)) ), 0]
+            if rng.random() < 0.5:
+                pos = [_even(rng.choice((-6, -4))), _even(-12 + span[1] + rng.choice((-2, 0, 2))), 0]
+            mut = dict(style="with", scale=1, psd=[Fraction(1, 2), 0, 0], osd=0) if rng.random() < 0.4 else None
+            objs = [_obj("cube", [[-8, 8, 0]], allow=(1,)),
+                    _obj(alts, [pos], rot=[rot], allow=(1,), mut=mut)]
+            progs.append(_prog(objs, [_mesh_cont(wsn)], 1, [], "random shape, fixed dimensions and pose"
+                               + (" + with mutationScale" if mut else "")))
+        elif f == 10:  # everything fixed, own regionContainedIn differing from the workspace (+ mutate)
+            cpos = [_even(rng.randint(-8, 8)), _even(rng.randint(-8, 8)), 0]
+            csh = rng.choice(("big", "bigL"))
+            off = [_even(rng.choice((-4, -2, 0, 2))), _even(rng.choice((-4, -2))), 0]   # inside both big and bigL
+            mut = rng.choice((None, dict(style="stmt", scale=1, psd=[Fraction(1, 2), 0, 0], osd=0),
+                              dict(style="by", scale=2, psd=[0, Fraction(1, 4), 0], osd=0)))
+            objs = [_obj("cube", [[20, 20, 0]], allow=(1,)),
+                    _obj(rng.choice(("cube", "bar")), [[cpos[0] + off[0], cpos[1] + off[1], 0]], rot=[rng.choice(YAW_ONLY)],
+                         allow=(1,), cont=2, mut=mut)]
+            progs.append(_prog(objs, [_mesh_cont("hall"), _mesh_cont(csh, cpos)], 1, [],
+                               "fixed pose, own regionContainedIn" + (" + mutate" if mut else "")))
         else:  # non-planar poses in an L-shaped room
             a, b = rng.choice(small), rng.choice(small)
             objs = [_obj(a, near(rng, 2, 6), rot=[rng.randrange(5, 25)]),
@@ -200,13 +292,13 @@ def to_scenic(prog):
     if prog["ws"]:
         L.append(f"workspace = Workspace(c{prog['ws']})")
     for oi, o in enumerate(prog["objs"], 1):
-        e = G.CAT[o["shape"] - 1]
+        e = G.CAT[o["shapes"][0] - 1]
         eul = [G.ROTS[r - 1][1] for r in o["rot"]]
         if len({(p, r) for _y, p, r in eul}) != 1:
             raise MachineryError("rotation options of one object must share pitch and roll")
         specs = [
             f"at {_opts([_vec(p) for p in o['pos']])}",
-            f"with shape scenic_shape({e['name']!r})",
+            f"with shape {_opts([f'scenic_shape({G.CAT[si - 1]['name']!r})' for si in o['shapes']])}",
             f"with width {e['dims'][0]!r}", f"with length {e['dims'][1]!r}", f"with height {e['dims'][2]!r}",
             f"with yaw {_opts([f'{90 * y} deg' for y, _p, _r in eul])}",
             f"with pitch {90 * eul[0][1]} deg", f"with roll {90 * eul[0][2]} deg",
@@ -220,9 +312,19 @@ def to_scenic(prog):
             specs.append(f"not visible from o{o['nvis']}")
         if o["cont"]:
             specs.append(f"with regionContainedIn c{o['cont']}")
+        m = o.get("mut")
+        if m:
+            specs.append(f"with positionStdDev ({', '.join(repr(float(Fraction(x))) for x in m['psd'])})")
+            specs.append(f"with orientationStdDev ({m['osd']} deg, 0, 0)")
+            if m["style"] == "with":
+                specs.append(f"with mutationScale {m['scale']}")
         L.append(f"o{oi} = new Object " + ", ".join(specs))
         if oi == 1:
             L.append("ego = o1")
+        if m and m["style"] == "stmt":
+            L.append(f"mutate o{oi}")
+        elif m and m["style"] == "by":
+            L.append(f"mutate o{oi} by {m['scale']}")
     for u in prog["user"]:
         p = Fraction(u["p"][0], u["p"][1])
         L.append(f"require{'' if p == 1 else '[' + repr(float(p)) + ']'} {_cond_text(u['c'])}")
@@ -288,6 +390,18 @@ def run_program(item):
     runs = []
     state = {}
 
+    def read_scene(sampled):
+        """Final geometry of the sampled objects: position (x4), rotation id, allowCollisions, shape id."""
+        a = []
+        for oi, so in enumerate(sampled):
+            pos = [int(round(v * G.S)) for v in so.position]
+            if any(abs(v * G.S - q) > 1e-6 for v, q in zip(so.position, pos)):
+                pos = [float(v) for v in so.position]  # off the lattice: will not map to any assignment
+            m = tuple(map(tuple, numpy.round(so.orientation.r.as_matrix()).astype(int).tolist()))
+            sh = [si for si in prog["objs"][oi]["shapes"] if so.shape is G.real_shape(G.CAT[si - 1])]
+            a.append([pos, rotmats.get(m, 0), 1 if so.allowCollisions else 0, sh[0] if sh else 0])
+        return a
+
     def install(checker):
         keys = [_req_key(r, scenario) for r in checker.requirements]
         for j, req in enumerate(checker.requirements):
@@ -307,13 +421,7 @@ def run_program(item):
         orig_check = type(checker).checkRequirements
 
         def check(sample, _c=checker):
-            a = []
-            for oi, o in enumerate(objs):
-                so = sample[o]
-                pos = [int(round(v * G.S)) for v in so.position]
-                m = tuple(map(tuple, numpy.round(so.orientation.r.as_matrix()).astype(int).tolist()))
-                a.append([pos, rotmats.get(m, 0), 1 if so.allowCollisions else 0])
-            state["asg"] = a
+            state["asg"] = read_scene([sample[o] for o in objs])
             state["act"] = [j + 1 for j, r in enumerate(scenario.userRequirements) if r.active]
             return orig_check(_c, sample)
 
@@ -326,8 +434,10 @@ def run_program(item):
         n = len(scenario.checker.requirements)
         state["cost"] = [crng.choice((0.001, 0.01, 0.1, 1.0, 10.0)) for _ in range(n)]
         try:
-            scenario.generate(maxIterations=1, verbosity=0)
+            scene, _its = scenario.generate(maxIterations=1, verbosity=0)
             v = "accept"
+            # the audit of an accepted scene uses the objects of the returned Scene itself
+            state["asg"] = read_scene(scene.objects)
         except RejectionException:
             v = "reject"
         return (v, state["asg"], state["act"], state["log"])
@@ -344,7 +454,7 @@ def run_program(item):
             else:
                 scenario.checker = default_checker
             install(scenario.checker)
-            for outcome, _w, _log in srng.explore(one, thresholds=thresholds):
+            for outcome, _w, _log in srng.explore(one, thresholds=thresholds, gauss_values=gauss_values):
                 v, a, act, log = outcome
                 runs.append({"mode": mode, "pass": pi, "verdict": v, "asg": a, "act": act, "log": [list(x) for x in log]})
     except Exception as e:
@@ -357,14 +467,34 @@ def run_program(item):
 
 
 # ----------------------------------------------------------------------------- audit
+_ROTID = {m: i + 1 for i, (m, _a) in enumerate(G.ROTS)}
+
+
+def final_table(o):
+    """Final geometry (position, rotation id, allowCollisions, shape id) -> option indices
+    (1-based, as asg[o] in Checker.tla) for one object: pose after mutation, sampled shape."""
+    tab = {}
+    for ip, pos in enumerate(o["pos"]):
+        for ir, rot in enumerate(o["rot"]):
+            for ia, al in enumerate(o["allow"]):
+                for inz, nz in enumerate(o["noise"]):
+                    for iy, yq in enumerate(o["ynoise"]):
+                        for ish, sh in enumerate(o["shapes"]):
+                            fpos = tuple(p + d for p, d in zip(pos, nz))
+                            frot = _ROTID[G._mm(G._mpow(G._RZ, yq), G.ROTS[rot - 1][0])]
+                            tab.setdefault((fpos, frot, al, sh), (ip + 1, ir + 1, ia + 1, inz + 1, iy + 1, ish + 1))
+    return tab
+
+
 def asg_index(prog, real_asg):
-    """Map the sampled values back to option indices (1-based, as in Checker.tla)."""
+    """Map the sampled FINAL scene (read from the sample handed to the checker) back to option
+    indices: any assignment with the same final geometry (they all have the same truths)."""
     out = []
-    for o, (pos, rot, allow) in zip(prog["objs"], real_asg):
-        try:
-            out.append((o["pos"].index(pos) + 1, o["rot"].index(rot) + 1, o["allow"].index(allow) + 1))
-        except ValueError:
+    for o, (pos, rot, allow, shape) in zip(prog["objs"], real_asg):
+        t = final_table(o).get((tuple(pos), rot, allow, shape))
+        if t is None:
             return None
+        out.append(t)
     return tuple(out)
 
 
@@ -406,7 +536,7 @@ def tlc_validate(ck, progs, base, traces):
         path = os.path.join(scratch(), f"c02_tr{c}.json")
         with open(path, "w") as f:
             json.dump(dict(base, cases=[], universe=[],
-                           programs=[{k: v for k, v in p.items() if k != "note"} for p in chunk],
+                           programs=[tla_prog(p) for p in chunk],
                            traces=[{"pid": t["k"] - c * 40 + 1, "asg": [list(x) for x in t["asg"]], "act": list(t["act"]),
                                     "mode": t["mode"], "log": t["log"], "verdict": t["verdict"]} for _tid, t in lst]), f)
         res = run_tlc("CheckerTrace", TRACE_CFG, env={"OV_DATA": path, "OV_MODE": "none"}, timeout=2400)
@@ -494,7 +624,7 @@ def main(tier):
         chunk = progs[b0 : b0 + 40]
         path = os.path.join(scratch(), f"c02_{b0}.json")
         with open(path, "w") as f:
-            json.dump(dict(base, cases=[], universe=[], programs=[{k: v for k, v in p.items() if k != "note"} for p in chunk]), f)
+            json.dump(dict(base, cases=[], universe=[], programs=[tla_prog(p) for p in chunk]), f)
         res = run_tlc("Checker", CFG, env={"OV_DATA": path, "OV_MODE": "none"}, coverage=(b0 == 0), timeout=2400)
         ck.add_tlc("Checker", res)
         if b0 == 0:
